@@ -102,7 +102,7 @@ def _count_of(interp, args, kwargs):
 SPEC_BUILTINS = {
     "count_of": _count_of,
     "is_in": _is_in,
-    "fresh": _fresh, "split_off": _extern("split_off"),
+    "fresh": _fresh, "split_off": _extern("split_off"), "join_off": _extern("join_off"),
     "all_in": _quant_in(True), "any_in": _quant_in(False),
     "replace_all": _replace_all,
     "same_keys": lambda interp, args, kwargs: _keys_rel(interp, args[0], args[1], None, "same"),
